@@ -773,6 +773,9 @@ pub mod vtable{ordinal} {{
                         "#,
         );
 
+        #[cfg(bytecodealliance_wit_bindgen_verif)]
+        let code = crate::verif_rewrite_payload_vtable(code, &module);
+
         let map = match payload_for {
             PayloadFor::Future => &mut self.r#gen.future_payloads,
             PayloadFor::Stream => &mut self.r#gen.stream_payloads,
